@@ -45,8 +45,20 @@ def run(ctx):
                     active = d
     ctx.need(active is not None, 'Schedule::test: local initialised from `prev` not found')
 
+    def reads(n, member, depth=0):
+        """n reads Schedule member `member`, directly or through a local initialised from an expression that does"""
+        if q.reads_member(n, member):
+            return True
+        if depth < 3:
+            for x in n.walk():
+                if x.k == 'DeclRefExpr' and x.decl and x.decl.get('sc') == 'local':
+                    for (dn, kind, v_) in q.local_defs(x.fn, x.declid):
+                        if kind == 'init' and v_ is not None and reads(v_, member, depth + 1):
+                            return True
+        return False
+
     def mk_oracle(sd, ed, wd, tclass, daily):
-        def val(n):
+        def val(n, bind=None, depth=0):
             s = n.strip(casts=True)
             if s.k == 'MemberExpr' and s.decl.get('qp') == SCH + '_start_day':
                 return -1 if daily else sd
@@ -54,7 +66,32 @@ def run(ctx):
                 return -1 if daily else ed
             if s.k == 'MemberExpr' and s.decl.get('n') == 'tm_wday':
                 return wd
+            if s.k == 'DeclRefExpr' and bind and s.declid in bind:
+                return bind[s.declid]
+            if s.k == 'DeclRefExpr' and s.decl and s.decl.get('sc') == 'local' and depth < 3:
+                ds = [(k, v_) for (_, k, v_) in q.local_defs(s.fn, s.declid)]
+                if len(ds) == 1 and ds[0][0] == 'init' and ds[0][1] is not None:
+                    return val(ds[0][1], bind, depth + 1)         # a const local naming a sub-expression
             return s.value
+
+        def bev(n, bind):
+            """truth of a boolean expression over day comparisons (helper predicates extracted from the weekly tests)"""
+            s = n.strip(casts=True)
+            if s.k == 'BinaryOperator' and s.op in ('&&', '||'):
+                a, b = bev(s.children[0], bind), bev(s.children[1], bind)
+                if s.op == '&&':
+                    return False if (a is False or b is False) else (True if (a and b) else None)
+                return True if (a is True or b is True) else (False if (a is False and b is False) else None)
+            if s.k == 'UnaryOperator' and s.op == '!':
+                a = bev(s.children[0], bind)
+                return None if a is None else (not a)
+            if s.k == 'BinaryOperator' and s.op in ('<', '>', '<=', '>=', '==', '!='):
+                a, b = val(s.children[0], bind), val(s.children[1], bind)
+                if a is None or b is None:
+                    return None
+                return {'<': a < b, '>': a > b, '<=': a <= b, '>=': a >= b, '==': a == b, '!=': a != b}[s.op]
+            return None
+
         def oracle(atom):
             s = atom.strip(casts=True)
             if s.k == 'BinaryOperator' and s.op in ('<', '>', '<=', '>=', '==', '!='):
@@ -64,16 +101,24 @@ def run(ctx):
                 return {'<': a < b, '>': a > b, '<=': a <= b, '>=': a >= b, '==': a == b, '!=': a != b}[s.op]
             if s.is_call and s.callee_qp == 'FIX8::Tickval::in_range':
                 # in_range(today + _start, today + _end)
-                ok = q.reads_member(s.args[0], SCH + '_start') and q.reads_member(s.args[1], SCH + '_end')
+                ok = reads(s.args[0], SCH + '_start') and reads(s.args[1], SCH + '_end')
                 return (tclass == 'inside') if ok else None
+            if s.is_call and (s.callee_qp or '').startswith(SCH) and s.callee_qp not in (SCH + 'test',):
+                # a predicate of Schedule extracted from the tests: evaluate its single return with the arguments bound
+                for h in prog.fns(s.callee_qp):
+                    rr = [x for x in h.all_nodes() if x.k == 'ReturnStmt' and x.children]
+                    if len(rr) == 1 and len(h.param_ids) == len(s.args):
+                        bind = {pid: val(a) for pid, a in zip(h.param_ids, s.args)}
+                        return bev(rr[0].children[0], bind)
+                return None
             if s.is_call and s.r.get('op') in ('>', '>=', '<', '<='):
                 ops = ([s.obj] if s.obj is not None else []) + s.args
-                if q.reads_member(ops[1], SCH + '_end') and not q.reads_member(ops[1], SCH + '_start') and not q.reads_member(ops[0], SCH + '_end'):
+                if reads(ops[1], SCH + '_end') and not reads(ops[1], SCH + '_start') and not reads(ops[0], SCH + '_end'):
                     if s.r['op'] == '>':
                         return tclass == 'after'
                     if s.r['op'] == '>=':
                         return None      # boundary instant not represented in the quotient
-                if q.reads_member(ops[1], SCH + '_start') and not q.reads_member(ops[0], SCH + '_start'):
+                if reads(ops[1], SCH + '_start') and not reads(ops[0], SCH + '_start'):
                     if s.r['op'] == '<':
                         return tclass == 'before'
                     if s.r['op'] == '>=':
